@@ -426,11 +426,13 @@ func genAdversarialOp(rng *rand.Rand, g *GenesisSpec) Op {
 }
 
 func genC20(rng *rand.Rand, seed uint64, tier string) *Script {
-	switch rng.IntN(6) {
+	switch rng.IntN(7) {
 	case 0:
 		return genBusScript(rng, seed)
 	case 1:
 		return genFilterScript(rng, seed)
+	case 2:
+		return genWSServerScript(rng, seed)
 	}
 	g, _ := mixedGenesis(rng)
 	g.Erc20Native, g.StakingCpc = true, true
@@ -463,6 +465,9 @@ func runC20(rt *Runtime, r *RunCtx, s *Script) {
 		return
 	case "filters":
 		runFilterScenario(rt, r, s)
+		return
+	case "wsserver":
+		runWSServerScenario(rt, r, s)
 		return
 	}
 	var w *World
